@@ -156,6 +156,11 @@ func (di *docValueReader) loadDvChunk(chunkNumber uint64, s *Segment) error {
 	}
 	chunkMetaLoc := destChunkDataLoc + uint64(read)
 
+	// the header of the cached chunk is overwritten piecemeal below: forget
+	// the cached chunk first, so that an error return cannot leave a header
+	// that does not belong to curChunkNum and its data
+	di.curChunkNum = math.MaxInt64
+
 	offset := uint64(0)
 	if cap(di.curChunkHeader) < int(numDocs) {
 		di.curChunkHeader = make([]metaData, int(numDocs))
